@@ -62,6 +62,8 @@ class Ctx:
         self.keys = set()
         self.viol = []
         self.viol_count = collections.Counter()
+        self.known_count = collections.Counter()     # index into known entries of this property -> matching records
+        self._known = None
         self.classes = collections.Counter()
         self.outcomes = set()
         self.samples = []
@@ -106,6 +108,18 @@ class Ctx:
 
     # ---- verdicts ---------------------------------------------------------------------
     def fail(self, site, key, observed=None, expected=None, tol=None, repro=None):
+        # records selected by a known-findings entry are counted apart, so that the per-site cap on kept
+        # records can never hide a *new* failing case behind many known ones
+        if self._known is None:
+            from . import findings
+            self._known = findings.load_known(self.pid)
+        if self._known:
+            from . import findings
+            rec = {'site': site, 'key': str(key)}
+            for i, e in enumerate(self._known):
+                if findings.entry_matches(e, rec):
+                    self.known_count[i] += 1
+                    return
         self.viol_count[site] += 1
         if self.viol_count[site] <= self.MAX_VIOL_PER_SITE:
             r = {'site': site, 'key': str(key), 'observed': jsonable(observed),
@@ -156,7 +170,7 @@ class Ctx:
 
     # ---- (de)serialisation between worker and parent ------------------------------------
     def dump(self):
-        return dict(evals=self.evals, keys=self.keys, viol=self.viol, viol_count=dict(self.viol_count),
+        return dict(evals=self.evals, keys=self.keys, viol=self.viol, viol_count=dict(self.viol_count), known_count=dict(self.known_count),
                     classes=dict(self.classes), outcomes=self.outcomes, samples=self.samples,
                     states=self.states, transitions=self.transitions, traces=self.traces,
                     max_depth=self.max_depth, caps=self.caps, notes=self.notes, worst=self.worst)
@@ -167,6 +181,8 @@ class Ctx:
         self.viol += d['viol']
         for k, v in d['viol_count'].items():
             self.viol_count[k] += v
+        for k, v in d.get('known_count', {}).items():
+            self.known_count[k] += v
         for k, v in d['classes'].items():
             self.classes[k] += v
         self.outcomes |= d['outcomes']
